@@ -135,6 +135,8 @@ def check_config(cfg, w, rep):
     for k, v in n_by.items():
         rep.count("%s[%s]" % (k, cfg), v)
     check_retry_loops(cfg, w, rep)
+    check_write_contract(cfg, w, rep)
+    check_alloc_sizes(cfg, w, rep)
     rep.floor("panic_sites", len(sites), 10, cfg)
     rep.floor("public_entry_points", len(w.public_fns()), 30, cfg)
 
@@ -197,6 +199,136 @@ def check_retry_loops(cfg, w, rep):
                               "failure persists the public call never returns — a hang instead of an error" % (short(lf.path), blk_loc(body, u)),
                               loc=blk_loc(body, h), config=cfg, rule="unbounded-retry")
     rep.count("loops_examined[%s]" % cfg, n_loops)
+
+
+def check_write_contract(cfg, w, rep):
+    """Write::write / AsyncWrite::poll_write must not report more bytes than the caller's buffer holds: every caller in std,
+    futures, async-std and tokio (`write_all`, `copy`, BufWriter ...) slices its buffer with the returned count and panics
+    otherwise. A returned count is fine if it is the Ok payload of an inner write of this call's own buffer; a count that comes
+    from anywhere else (e.g. the stored result of an earlier, possibly cancelled, operation) must be compared with buf.len()
+    before it is returned."""
+    prog = w.prog
+    n = 0
+    for lf in prog.fns.values():
+        o = lf.outer
+        if not o.impl_trait or o.name not in ("write", "poll_write") or not re.search(r"(^|::)(std::io::Write|\w*AsyncWrite)$", o.impl_trait):
+            continue
+        body = lf.body
+        cf = prog.cfg(body)
+        bufi = 2 if o.name == "poll_write" else 1
+        pay_path = (("v", "Ok"), ("f", "0")) if o.name == "write" else (("v", "Ready"), ("f", "0"), ("v", "Ok"), ("f", "0"))
+        key = fn_key(lf)
+        for rd in ret_defs(prog, body):
+            if rd.cls not in ("success", "unknown"):
+                continue
+            pay = prog.resolve_lifted(body, 0, pay_path, OKFLOW, at=rd.blk)
+            if not pay and rd.cls == "unknown":
+                # a whole io::Result handed back as it is (`return Poll::Ready(res)`): its Ok payload is whatever that result holds
+                pay = prog.resolve_lifted(body, 0, pay_path[:-2], OKFLOW, at=rd.blk)
+            if not pay:
+                continue
+            n += 1
+
+            def inner_write_of_buf(x):
+                if x.kind != "call" or x.callee is None or not re.search(r"(Write>?::write|AsyncWrite>?::poll_write|write_mmap)$", x.callee.path):
+                    return False
+                a = prog.resolve_op(x.body, x.term.args[-1], IDENT, x.blk)
+                return bool(a) and all(y.kind == "param" and (prog.param_index(y) or (None, None))[1] == bufi for y in a)
+            if all(inner_write_of_buf(x) or (x.kind == "const") for x in pay):
+                rep.ob(cfg, "write-contract", "%s@%d" % (key, rd.blk), "`%s` returns the count an inner write of the caller's buffer reported" % short(lf.path))
+                continue
+            # otherwise: gated by n <= buf.len()
+            gated = False
+            for bb in body.blocks:
+                tu = bb.term
+                if bb.cleanup or tu.k != "switch" or tu.discr.place is None:
+                    continue
+                for o_ in prog.resolve_pl(body, tu.discr.place, IDENT):
+                    if o_.kind != "binop" or o_.info.j["op"] not in ("Le", "Lt", "Ge", "Gt"):
+                        continue
+                    sides = [prog.resolve_op(body, x, OKFLOW, o_.blk) for x in o_.info.ops]
+
+                    def is_len_of_buf(sd):
+                        for y in sd:
+                            if y.kind == "unop" and y.info.j["op"] == "PtrMetadata":
+                                src = prog.resolve_op(body, y.info.ops[0], IDENT, y.blk)
+                                if src and all(z.kind == "param" and (prog.param_index(z) or (None, None))[1] == bufi for z in src):
+                                    continue
+                                return False
+                            if y.kind == "call" and y.callee is not None and y.callee.path.endswith("::len"):
+                                src = prog.resolve_op(y.body, y.term.args[0], IDENT, y.blk)
+                                if src and all(z.kind == "param" and (prog.param_index(z) or (None, None))[1] == bufi for z in src):
+                                    continue
+                                return False
+                            return False
+                        return bool(sd)
+                    opn = o_.info.j["op"]
+                    tgt = None
+                    if sides[0] == pay and is_len_of_buf(sides[1]) and opn in ("Le", "Lt"):
+                        tgt = switch_target(tu, 1)
+                    elif sides[1] == pay and is_len_of_buf(sides[0]) and opn in ("Ge", "Gt"):
+                        tgt = switch_target(tu, 1)
+                    elif sides[0] == pay and is_len_of_buf(sides[1]) and opn in ("Gt",):
+                        tgt = switch_target(tu, 0)
+                    if tgt is not None and not unreachable_without(prog, body, [Gate(body, (bb.i, tgt), "n <= buf.len()", bb.i)], [rd.blk]):
+                        gated = True
+            if gated:
+                rep.ob(cfg, "write-contract", "%s@%d" % (key, rd.blk), "`%s` returns a stored count only after comparing it with buf.len()" % short(lf.path))
+            else:
+                rep.violation("write-contract:%s" % key,
+                              "`%s` can return Ok(n) where n is neither the count of a write of this call's buffer nor checked against buf.len() "
+                              "(%s): callers slice their buffer with n (write_all: `&buf[n..]`) and panic when n > buf.len()" % (
+                                  short(lf.path), sorted(map(repr, pay))[:2]), loc=blk_loc(body, rd.blk), config=cfg, rule="write-contract")
+    rep.count("write_returns[%s]" % cfg, n)
+
+
+ALLOC = re.compile(r"(std::vec::Vec::<T>::with_capacity|std::vec::Vec::<T, A>::(with_capacity_in|reserve|reserve_exact|resize|resize_with)|"
+                   r"std::string::String::(with_capacity|reserve|reserve_exact)|std::vec::from_elem|std::collections::\w+::<.*>::with_capacity|"
+                   r"core::slice::<impl \[T\]>::repeat|core::str::<impl str>::repeat)$")
+
+
+def check_alloc_sizes(cfg, w, rep):
+    """An allocation whose size is a number read from the index (a record's `size`, `time` ... fields are whatever is on disk,
+    or whatever a caller of the raw index API stored) aborts or panics with "capacity overflow" for a large value."""
+    from .fsrules import arg_sources
+    prog = w.prog
+    R = w.roles
+    untrusted = set(R.record_types) | {"index::Metadata"}
+    n = 0
+
+    def tainted(term):
+        for st in walk(term):
+            if st[0] == "field" and st[1] in untrusted:
+                return True
+            pth = st[3] if st[0] in ("call", "param", "arg", "field") and len(st) > 3 else (st[4] if st[0] == "agg" and len(st) > 4 else ())
+            if any(isinstance(e, tuple) and e and e[0] == "f" and len(e) == 3 and e[2] in untrusted for e in pth):
+                return True
+        return False
+    for body in prog.bodies:
+        for blk, t in body.calls():
+            if t.callee is None or not ALLOC.search(t.callee.path) or not t.args:
+                continue
+            n += 1
+            lf = prog.owner_fn(body)
+            size_op = t.args[-1] if "with_capacity" in t.callee.path or "repeat" in t.callee.path else (t.args[1] if len(t.args) > 1 else t.args[-1])
+            if "from_elem" in t.callee.path:
+                size_op = t.args[1]
+            terms = [w.sym.of_operand(body, size_op)]
+            # sizes that arrive through parameters: what do the callers pass?
+            for o in prog.resolve_op(body, size_op, DEPEND, blk.i):
+                if o.kind == "param":
+                    pi = prog.param_index(o)
+                    if pi is not None:
+                        for (g, b2, blk2, tm) in arg_sources(w, pi[0], pi[1]):
+                            terms.append(tm)
+            if any(tainted(tm) for tm in terms):
+                rep.violation("alloc:%s" % fn_key(lf),
+                              "`%s` sizes an allocation (`%s`) with a number taken from an index record: a huge value on disk (or stored through "
+                              "the raw index API) makes it panic with 'capacity overflow' or abort the process" % (
+                                  short(lf.path), t.callee.path.rsplit("::", 1)[-1]), loc=span_str(t.span), config=cfg, rule="alloc-from-index")
+            else:
+                rep.ob(cfg, "alloc-from-index", "%s:%s@%d" % (fn_key(lf), t.callee.path.rsplit("::", 1)[-1], blk.i), "allocation size in `%s` does not come from the index" % short(lf.path))
+    rep.count("alloc_sites[%s]" % cfg, n)
 
 
 def _result_match_gates(prog, body):
